@@ -88,7 +88,7 @@ func TestVerifC03Ticker(t *testing.T) {
 	r := vr.Start("C03", "ticker", 100*time.Second, 10*time.Minute)
 	defer r.Finish()
 	r.Rule = "conformance of the harness ticker (the model used by the simulated nodes) with the real consensus/ticker.go: every sequence of 1..3 ScheduleTimeout requests over heights {1,2} x rounds {0,1} x steps {propose, prevote-wait, precommit-wait}, " +
-		"followed after the delivery by every single further request (quick) / every sequence of 1..2 (thorough), is given to both; the identity of each delivered timeout is compared; a case = (first sequence, second sequence), all distinct; non-trivial = more than one request"
+		"followed after the delivery by every single further request (first sequences up to length 2 quick, 3 thorough), is given to both; the identity of each delivered timeout is compared; a case = (first sequence, second sequence), all distinct; non-trivial = more than one request"
 	r.Assume("identities only: durations are 25 ms and are not judged; a missing delivery after 20 s is inconclusive, not a violation")
 	var rc c03tCase
 	if rep, skip := r.ReplayCase(&rc); skip {
@@ -127,8 +127,8 @@ func TestVerifC03Ticker(t *testing.T) {
 		return out
 	}
 	firsts := seqs(vr.Pick(2, 3))
-	seconds := append([][]c03tReq{nil}, seqs(vr.Pick(1, 2))...)
-	n := 0
+	seconds := append([][]c03tReq{nil}, seqs(1)...)
+	n, mine := 0, 0
 	reported := map[string]bool{}
 	for _, f := range firsts {
 		for _, s2 := range seconds {
@@ -136,7 +136,8 @@ func TestVerifC03Ticker(t *testing.T) {
 			if !r.Mine(n) {
 				continue
 			}
-			if n%64 == 0 && r.Deadline("C03 ticker sequences") {
+			mine++
+			if mine%16 == 0 && r.Deadline("C03 ticker sequences") {
 				return
 			}
 			c := c03tCase{First: f, Second: s2}
